@@ -568,6 +568,7 @@ class Corr:
         self.spec_violations = []   # (case, impl, reason)
         self.known_hits = {}        # known id -> list of cases
         self.exhaustive = False
+        self.structural = []        # broken structural assumptions of the model (reported with no-failing-input-found)
         self.extra = {}
         self.histogram = {}
 
@@ -607,6 +608,13 @@ def finish(ctx, mod, proof, corr, t0, already_reported=False):
             path = write_replay(pid, {'property': pid, 'kind': 'spec-violation', 'case': c[0], 'implementation': c[1], 'reason': c[2],
                                       'count': len(corr.spec_violations), 'more': [x[0] for x in corr.spec_violations[1:20]]})
             print(f'VIOLATION property={pid} replay={path}')
+            violations.append(path)
+        elif getattr(corr, 'structural', None):
+            # a structural assumption of the model no longer holds in the source (e.g. the library gained mutable shared
+            # state): the theorem's model no longer describes the code, but no input on which the property fails was found
+            path = write_replay(pid, {'property': pid, 'kind': 'structural-assumption', 'note': 'an assumption the model (and therefore every theorem of this property) makes about the source text no longer holds; the behavioural search found no input on which the property fails',
+                                      'hits': corr.structural[:40]})
+            print(f'VIOLATION property={pid} replay={path} no-failing-input-found')
             violations.append(path)
         elif corr.disagreements:
             c = corr.disagreements[0]
